@@ -3,6 +3,7 @@ package props
 import (
 	"encoding/json"
 	"fmt"
+	"github.com/buildbuildio/pebbles/planner"
 	"math/rand"
 	"regexp"
 	"strings"
@@ -422,6 +423,8 @@ func (p c17) Exec(c *run.Ctx, idx int, raw json.RawMessage) []run.Result {
 		}
 	}
 	crossService := false
+	// round trips: an event costs each service at most one batched call per plan level at which it appears
+	budget := map[string]int{}
 	for ci, conn := range sp.Conns {
 		frames := clients[ci].Frames()
 		for _, f := range frames {
@@ -457,7 +460,27 @@ func (p c17) Exec(c *run.Ctx, idx int, raw json.RawMessage) []run.Result {
 			emitted := int(atomic.LoadInt32(&uc.Emitted))
 			if emitted < len(want) {
 				want = want[:emitted]
-			} else {
+			}
+			if _, _, _, plan, perr := planShape(r, &s.Op); perr == nil && plan != nil {
+				levels := map[string]map[int]bool{}
+				var walk func(st []*planner.QueryPlanStep, d int)
+				walk = func(st []*planner.QueryPlanStep, d int) {
+					for _, x := range st {
+						if d >= 2 {
+							if levels[x.URL] == nil {
+								levels[x.URL] = map[int]bool{}
+							}
+							levels[x.URL][d] = true
+						}
+						walk(x.Then, d+1)
+					}
+				}
+				walk(plan.RootSteps, 1)
+				for u, l := range levels {
+					budget[u] += len(want) * len(l)
+				}
+			}
+			if emitted >= len(want) {
 				for _, e := range s.Script {
 					if e.Kind == "error-frame" {
 						want = append(want, "error-frame") // forwarded to the client as errors under the same id
@@ -540,6 +563,24 @@ func (p c17) Exec(c *run.Ctx, idx int, raw json.RawMessage) []run.Result {
 	res.Counters["connections"] = len(sp.Conns)
 	res.NonTrivial = crossService || nsubs >= 2
 	res.Key = hashStr(specHashOf(sp.U), jsonStr(sp.Conns), sp.Cfg.String())
+	{
+		calls := map[string]map[int64]bool{}
+		for _, e := range r.Log.Since(0) {
+			if e.OpKw == "subscription" || e.CallID == 0 {
+				continue
+			}
+			if calls[e.Service] == nil {
+				calls[e.Service] = map[int64]bool{}
+			}
+			calls[e.Service][e.CallID] = true
+		}
+		for _, svc := range r.Services {
+			res.Counters["downstream_http_calls"] += len(calls[svc.Name])
+			if n := len(calls[svc.Name]); n > budget[svc.URL] {
+				add("more-calls-than-plan-levels-per-event", fmt.Sprintf("service %s received %d batched calls; the events forwarded x the plan levels at which it appears allow %d", svc.Name, n, budget[svc.URL]))
+			}
+		}
+	}
 	res.Tags = cfgTags(sp.Cfg)
 	if sp.Deep {
 		res.Tags = append(res.Tags, "three-service-chain")
